@@ -19,14 +19,17 @@ TRUSTED = c06.TRUSTED
 ASSUMPTIONS = ["Rust semantics of Vec/usize as modelled (checked indexing, debug-profile overflow checks)",
                "the sampled cases are where model and code were compared; the theorems are about the model"]
 UNPROVED = ["floating-point products are tied bitwise to the float instance of the model; the theorems are exact-arithmetic (ring) statements",
-            "products of matrices with duplicate positions sum the duplicates (proved for the model as sp_entry); to_dense keeps the last one -- outside the claim"]
+            "the products are proved equal to the textbook sums over sp_entry (the matrix the storage denotes) and sp_entry is proved to be the "
+            "entry of to_dense for duplicate-free storage (to_dense_entry); the dense Matrix::multiply itself belongs to C03 and is not re-proved here",
+            "with duplicate positions multiply sums the duplicates while to_dense keeps the last one -- outside the claim, tied only"]
 
 MANIFEST = dict(
     text=("Theorems about the Gallina model of src/sparse.rs over any commutative ring, for every well-formed matrix of any shape: "
           "multiply returns the dense product and transpose_multiply the transposed dense product of the matrix of stored entries "
           "(sp_mul_spec, sp_tmul_spec: the scatter and gather loops characterised as sums over the stored entries), "
           "<y, A x> = <A^T y, x> (sp_adjoint), scaling scales the product (sp_scale_mul) and multiplying by the explicit transpose equals "
-          "the transposed product (sp_transpose_mul).  The model is run against the implementation (Rat vs Qc exact) on every shape up to "
+          "the transposed product (sp_transpose_mul); for duplicate-free storage the abstract entries are the entries of to_dense "
+          "(to_dense_entry).  The model is run against the implementation (Rat vs Qc exact) on every shape up to "
           "10 x 10 with random duplicate-free patterns, empty rows/columns, the empty matrix and vectors that are not all-ones; a dense "
           "Fraction reference searches for a failing input."),
     note=("Which theorems are discharged is reported by the check (theorems k/k) and listed in coq/Props/C07.v; the f64 instance is tied "
